@@ -194,6 +194,23 @@ theorem cut_item_leaves_prefix (fs : Fs) (it : UpItem) (n : Nat) (hf : it.isDir 
     (upItem fs it (some n)).fs.get it.path = { final := none, inc := some (it.data.take (n - 4 - (56 + it.info.size))) } :=
   upItem_cut_file fs it n hf hok hfree hpar h4 hcut
 
+-- ---------------------------------------------------------------- whole sessions
+
+/-- **A session over any store**: if every streamed item is, at its turn, new (free name below an
+    existing folder), already there, or partially there (the partial file holding a prefix of the
+    client's data), the loop accepts all of them — answering send / next-file / resume with the
+    partial file's size — and ends with exactly the store the items describe (`Session`). -/
+theorem session_skips_complete_and_resumes_partial (fs fs' : Fs) (its : List UpItem) (ws : List Bytes)
+    (h : Session fs its fs' ws) :
+    uploadItems fs (its.map fun it => (it, none)) = (fs', ws, true) :=
+  uploadItems_session fs fs' its ws h
+
+/-- **Streaming again what is already complete changes nothing**: every item is answered "next file". -/
+theorem reupload_changes_nothing (fs : Fs) (its : List UpItem)
+    (h : ∀ it ∈ its, (∃ x, (fs.get it.path).final = some x) ∧ (fs.get it.path).inc = none) :
+    uploadItems fs (its.map fun it => (it, none)) = (fs, its.map (fun _ => [0, 3]), true) :=
+  uploadItems_session fs fs its _ (session_all_present fs its h)
+
 -- ---------------------------------------------------------------- whole trees
 
 /-- **A folder upload recreates exactly what was streamed**: streaming any tree (sibling names
@@ -264,6 +281,15 @@ example : exTree.Good := by
   simp [exTree, Node.Good, Node.GoodKids, Node.name, fA, fB, fDot, StoredFile.effInfo, defaultInfo, InfoFork.WFup, InfoFork.fixedWF]
 example : ((downloadFolder exTree [.send, .resume 4, .next]).map (·.body.length)) = [4 + 131 + 1, 4 + 131 + 2, 0] := by decide +kernel
 example : (uploadItems [] (exTree.clientStream.map fun it => (it, none))).2.2 = true := by decide +kernel
+-- a session: "a" partially there (2 of 6 bytes), "b" complete, "c" new
+def exFs : Fs := [([[98]], { final := some (.file [7]) }), ([[97]], { inc := some [1, 2] })]
+example : Session exFs
+    [Entry.toItem ⟨[[97]], [97], some fA⟩, { path := [[98]], isDir := false, data := [7, 8] }, { path := [[99]], isDir := true }]
+    (Fs.set (Fs.set exFs [[97]] { final := some (.file fA.data) }) [[99]] { final := some .dir })
+    [(Answer.resume 2).bytes ++ [0, 3], [0, 3], [0, 3]] :=
+  .cons (.resumed 2 rfl (Or.inr ⟨by decide, by decide, by decide, by decide⟩) (by decide) rfl)
+    (.cons (.present (.file [7]) rfl (Or.inr rfl))
+      (.cons (.fresh (Or.inl rfl) rfl rfl) (.nil _)))
 example : (upItem [([[97]], { inc := some [1, 2] })] (Entry.toItem ⟨[[97]], [97], some fA⟩) none).fs.get [[97]] = { final := some (.file [1, 2, 3, 4, 5, 6]) } := by decide +kernel
 
 end Mobius.C10
